@@ -237,6 +237,15 @@ def run_case(case):
                         rec['acked'] = True
             except Exception as e:  # pylint: disable=broad-except
                 results.append(dict(client=c, exc=e, uid=None))
+        # (installed before any simulated thread starts: a thread is traced from its start)
+        pre = None
+        if case.get('hot'):
+            from .. import preempt
+            pre = preempt.Preempter(world.sim, prob=0.5, park_prob=0.3, park_max=0.2,
+                                    funcs={'write_meta', 'get_file', '_get_storage_file',
+                                           'process', 'storage_scp'},
+                                    files=('applicationentity.py', '__init__.py'))
+            pre.install()
         for c in range(case['nclients']):
             world.spawn(lambda c=c: client(c), 'client%d' % c)
         faulty = case.get('fault')
@@ -252,13 +261,6 @@ def run_case(case):
             world.sim.actors.append(sched.Trigger(
                 'slow', lambda: world.sim.steps >= sl['at'] and
                 len([x for x in world.sim.tasks if x.role == 'dul']) >= 2, do_slow))
-        pre = None
-        if case.get('hot'):
-            from .. import preempt
-            pre = preempt.Preempter(world.sim, prob=0.5, park_prob=0.3, park_max=0.2,
-                                    funcs={'write_meta', 'get_file', '_get_storage_file',
-                                           'process', 'storage_scp'})
-            pre.install()
         if faulty == 'disk':
             fs.fail_errno = rnd.choice([28, 5])
             fs.fail_write_at = rnd.randint(1, 12)
